@@ -459,9 +459,15 @@ func c11Adversarial(r *mon.Run, key *world.Key, jr *rand.Rand, idx int) {
 	})
 	for _, name := range []string{"beta", "delta", "epsilon", "zeta"} {
 		name := name
-		alter(name+"+1", func(d *gabi.ProofD) { d.NonRevocationProof.Responses[name] = add(d.NonRevocationProof.Responses[name], bigOne) })
-		alter(name+"-1", func(d *gabi.ProofD) { d.NonRevocationProof.Responses[name] = sub(d.NonRevocationProof.Responses[name], bigOne) })
-		alter(name+"+ord (equation-preserving)", func(d *gabi.ProofD) { d.NonRevocationProof.Responses[name] = add(d.NonRevocationProof.Responses[name], ord) })
+		alter(name+"+1", func(d *gabi.ProofD) {
+			d.NonRevocationProof.Responses[name] = add(d.NonRevocationProof.Responses[name], bigOne)
+		})
+		alter(name+"-1", func(d *gabi.ProofD) {
+			d.NonRevocationProof.Responses[name] = sub(d.NonRevocationProof.Responses[name], bigOne)
+		})
+		alter(name+"+ord (equation-preserving)", func(d *gabi.ProofD) {
+			d.NonRevocationProof.Responses[name] = add(d.NonRevocationProof.Responses[name], ord)
+		})
 		alter(name+" zero", func(d *gabi.ProofD) { d.NonRevocationProof.Responses[name] = bi(0) })
 	}
 	alter("beta<->delta", func(d *gabi.ProofD) {
